@@ -271,7 +271,7 @@ class World:
                     w.blocked = True
                     self.contended = True
         for clause, desc in ad.at_instant_end(self):
-            self.flag(clause, self.tie_shape(), f"at the end of instant {tk(prev_t)}: {desc}")
+            self.flag(clause, ad.instant_shape(self), f"at the end of instant {tk(prev_t)}: {desc}")
         waiting = [w for w in self.ws if w.state == WAIT and w.blocked and not ad.expired(w, prev_t)]
         if waiting and ad.ordered:
             head = min(waiting, key=ad.order_key)
@@ -388,6 +388,12 @@ class Adapter:
 
     def sim_kwargs(self):
         return {}
+
+    def instant_shape(self, W):
+        return W.tie_shape()
+
+    def wrap_arrival(self, ev, ws):
+        return ev
 
     def expired(self, ws, now):
         return ws.expiry is not None and now >= ws.expiry
@@ -716,7 +722,12 @@ class RWLockAd(Adapter):
 
 
 class BarrierAd(Adapter):
-    """Workers call ``wait()`` ``rounds`` times (hold ticks in between).  amt = rounds."""
+    """kind 'wait': the worker calls ``wait()`` ``rounds`` times (amount = rounds, hold ticks in
+    between); kinds 'reset' / 'abort': the worker calls that secondary method once.
+    Reference accounting (spec, not implementation): a round collects ``parties`` arrivals and then
+    entitles all of them to pass; reset()/abort() entitle every party parked in the incomplete round to
+    be released (whether wait() then returns or raises is not judged) and start a fresh round; while
+    aborted, a wait() that raises RuntimeError at once is not an arrival."""
 
     name = "Barrier"
     ordered = False
@@ -724,8 +735,11 @@ class BarrierAd(Adapter):
     def build(self, W):
         self.parties = self.cfg["parties"]
         self.prim = Barrier("bar", self.parties)
+        self.in_round = 0  # arrivals of the current, incomplete round
+        self.entitled = 0  # releases the spec allows/demands so far
         self.arrivals = 0
         self.passes = 0
+        self.secondary = False
         for w in W.ws:
             w.rounds = w.amt
         return [self.prim]
@@ -736,31 +750,55 @@ class BarrierAd(Adapter):
     def admissible(self, occ):
         return True
 
+    def _arrive(self):
+        self.arrivals += 1
+        self.in_round += 1
+        if self.in_round >= self.parties:
+            self.entitled += self.in_round
+            self.in_round = 0
+
     def script(self, W, ws):
         b = self.prim
-        p = self.parties
+        if ws.kind in ("reset", "abort"):
+            W.note(ws, ws.kind)
+            self.secondary = True
+            self.entitled += self.in_round  # every parked party must be released now
+            self.in_round = 0
+            b.reset() if ws.kind == "reset" else b.abort()
+            ws.state = DONE
+            return None
         for rnd in range(ws.rounds):
             W.req(ws)
-            self.arrivals += 1
             before = pub(b, "waiting", 0)
 
             def first(before=before):
+                self._arrive()
                 ws.blocked = pub(b, "waiting", 0) > before
 
-            yield from delegate(b.wait(), first)
+            try:
+                yield from delegate(b.wait(), first)
+            except RuntimeError:
+                # broken barrier: refused at once (not an arrival) or released with an error
+                W.note(ws, "broken")
+                if ws.blocked is None:
+                    ws.state = FAILED
+                    return None
             if ws.blocked is None:
                 ws.blocked = False
             self.passes += 1
             W.grant(ws, rnd)
-            if self.passes > (self.arrivals // p) * p:
-                W.flag("over-admit", W.tie_shape(ws),
-                       f"{ws.name} passed the barrier at {tk(W.now())} as pass #{self.passes} although only "
-                       f"{self.arrivals} parties have arrived (parties={p})")
+            if self.passes > self.entitled:
+                W.flag("over-admit", self.shape(W, ws),
+                       f"{ws.name} passed the barrier at {tk(W.now())} as release #{self.passes} although only "
+                       f"{self.entitled} are due ({self.arrivals} arrivals, parties={self.parties})")
             W.rel(ws)
             ws.state = DONE
             if rnd + 1 < ws.rounds:
                 yield float(ws.hold)
         return None
+
+    def shape(self, W, ws=None):
+        return "after-reset-or-abort" if self.secondary else W.tie_shape(ws)
 
     def sample(self, W):
         n = pub(self.prim, "waiting")
@@ -774,15 +812,20 @@ class BarrierAd(Adapter):
         return out
 
     def at_instant_end(self, W):
-        want = (self.arrivals // self.parties) * self.parties
-        if self.passes < want:
-            return [("grant-late", f"{self.arrivals} parties have arrived (parties={self.parties}) so {want} must have "
-                                   f"passed, but only {self.passes} did")]
+        if self.passes < self.entitled:
+            return [("grant-late", f"{self.entitled} releases are due ({self.arrivals} arrivals, parties={self.parties}"
+                                   f"{', reset/abort called' if self.secondary else ''}) but only {self.passes} "
+                                   f"parties resumed")]
         return ()
 
     def starved(self, W, left):
-        want = (self.arrivals // self.parties) * self.parties
-        return left if self.passes < want else []
+        return left if self.passes < self.entitled else []
+
+    def starved_shape(self, W, w):
+        return self.shape(W, w)
+
+    def instant_shape(self, W):
+        return self.shape(W)
 
     def storm_shape(self, W):
         return self.name, "waiting-for-parties"
@@ -823,6 +866,24 @@ class ConditionAd(Adapter):
                 W.contended = True
                 yield from cv.wait()
                 W.grant(ws)  # re-entry into the monitor: exclusion is checked again
+            W.items -= 1
+            W.consumed += 1
+        elif ws.kind == "cf":
+            # same consumer through the convenience API wait_for(predicate); the predicate (called by the
+            # library with the mutex held) is where the harness sees the worker leave / re-enter the monitor
+            def have_item():
+                if ws.state == CWAIT:
+                    W.grant(ws)
+                if W.items > 0:
+                    return True
+                W.note(ws, "cwait")
+                ws.state = CWAIT
+                ws.cw_resumes = 0
+                ws.cw_epoch += 1
+                W.contended = True
+                return False
+
+            yield from cv.wait_for(have_item)
             W.items -= 1
             W.consumed += 1
         else:
@@ -922,8 +983,22 @@ class PoolAd(Adapter):
             return False  # the warm-up is still setting connections up: their slots are taken
         return self.admissible(W.occupying() + [head])
 
+    closed_at = None  # log position of a close_all() call
+
     def script(self, W, ws):
         pool = self.prim
+        if ws.kind == "close":
+            # teardown API: closes every connection and releases every queued waiter empty-handed.
+            # The statement says nothing about the counters afterwards (holders keep handles of closed
+            # connections), so only "no parked waiter strands" is judged from here on.
+            W.note(ws, "close_all")
+            for o in W.ws:
+                if o.state == HOLD:
+                    o.amt = 0
+            self.closed_at = len(W.log)
+            pool.close_all()
+            ws.state = DONE
+            return None
         W.req(ws)
         ws.expiry = ws.t_req + self.timeout * TICK
         before = pub(pool, "pending_requests", 0)
@@ -961,8 +1036,21 @@ class PoolAd(Adapter):
                     return "arrival-during-setup"
         return W.tie_shape(ws)
 
+    def at_instant_end(self, W):
+        if self.closed_at is None:
+            return ()
+        stuck = [w for w in W.ws if w.state == WAIT and w.blocked and w.s_req < self.closed_at]
+        if stuck:
+            return [("starved", f"close_all() was called but {stuck[0].name}, queued before it, is still parked")]
+        return ()
+
+    def instant_shape(self, W):
+        return "after-close_all" if self.closed_at is not None else W.tie_shape()
+
     def sample(self, W):
         p = self.prim
+        if self.closed_at is not None:
+            return ()
         act, idle, tot = pub(p, "active_connections"), pub(p, "idle_connections"), pub(p, "total_connections")
         if act is None or idle is None or tot is None:
             return ()
@@ -982,7 +1070,7 @@ class PoolAd(Adapter):
 
     def final(self, W):
         p = self.prim
-        if any(w.state in (WAIT, HOLD) for w in W.ws):
+        if self.closed_at is not None or any(w.state in (WAIT, HOLD) for w in W.ws):
             return ()
         act, idle, tot = pub(p, "active_connections"), pub(p, "idle_connections"), pub(p, "total_connections")
         if act is None:
@@ -1130,6 +1218,10 @@ class ThreadPoolAd(Adapter):
     def meta(self, ws):
         return {"tag": ws.idx, "processing_time": float(ws.hold)}
 
+    def wrap_arrival(self, ev, ws):
+        # direct arrivals go through the public convenience method submit()
+        return self.prim.submit(ev) if ws.hop == 0 else ev
+
     def script(self, W, ws):
         return None
 
@@ -1225,26 +1317,62 @@ class ServerAd(Adapter):
     name = "Server"
     block_on_time = True
 
+    OPS = ("up", "down", "set")  # kinds that change a DynamicConcurrency limit at run time
+
+    @property
+    def cap(self):
+        return pub(self._model(), "limit", self.cfg["limit"])
+
     def build(self, W):
-        self.cap = self.cfg["limit"]
         self.svc = self.cfg["service"]
+        self.dynamic = bool(self.cfg.get("dynamic"))
         self.W = W
-        self.prim = Server("srv", concurrency=self.cap, service_time=_StartHook(float(self.svc), self._start))
+        conc = DynamicConcurrency(self.cfg["limit"], min_limit=1, max_limit=3) if self.dynamic else self.cfg["limit"]
+        self.prim = Server("srv", concurrency=conc, service_time=_StartHook(float(self.svc), self._start))
+        self.cap_hist = [(0, self.cfg["limit"])]
         for w in W.ws:
-            w.prio, w.amt, w.hold = w.amt, 1, self.svc
+            if w.kind in self.OPS:
+                w.prio = w.amt
+                w.amt = 0
+            else:
+                w.prio, w.amt, w.hold = w.amt, 1, self.svc
         return [self.prim]
 
     def limit_text(self):
-        return f"concurrency={self.cap}"
+        return f"concurrency limit {self.cap}"
 
     def entry(self, W, ws, proc):
-        return self.prim
+        return proc if ws.kind in self.OPS else self.prim
 
     def meta(self, ws):
         return {"tag": ws.idx, "weight": ws.prio}
 
+    def admissible(self, occ):
+        cap = self.cap
+        ws = self.granting
+        if ws is not None:
+            # admission happens when the queue releases the request, a few deliveries before service
+            # starts: judge it against the largest limit in force since the request arrived
+            before = [c for (pos, c) in self.cap_hist if pos < ws.s_req]
+            cap = max([c for (pos, c) in self.cap_hist if pos >= ws.s_req] + before[-1:])
+        return sum(w.amt for w in occ) <= cap
+
     def script(self, W, ws):
+        """Limit change through every public method of the dynamic limiter (requests are events)."""
+        m = self._model()
+        W.note(ws, ws.kind, ws.prio)
+        if ws.kind == "up":
+            m.scale_up(1)
+        elif ws.kind == "down":
+            m.scale_down(1)
+        else:
+            m.set_limit(ws.prio)
+        self.cap_hist.append((len(W.log), self.cap))
+        ws.state = DONE
         return None
+
+    def late_shape(self, W, head):
+        return "after-limit-raise" if any(k in ("up", "set") for (_t, k, _i, _x) in W.log) else W.tie_shape(head)
 
     def _start(self):
         W = self.W
@@ -1279,9 +1407,9 @@ class ServerAd(Adapter):
         if act is None:
             return ()
         out = []
-        if lim is not None and act > lim:
+        if lim is not None and act > lim and not self.dynamic:  # a lowered limit never evicts (documented)
             out.append(("over-admit", f"limiter active={act} > limit={lim}"))
-        if avail is not None and lim is not None and act + avail != lim:
+        if avail is not None and lim is not None and act <= lim and act + avail != lim:
             out.append(("conservation", f"limiter active={act} + available={avail} != limit={lim}"))
         return out
 
@@ -1403,7 +1531,8 @@ def run_case(prim, cfg, specs):
     for ws, tgt in zip(W.ws, entries):
         md = {"tag": ws.idx}
         md.update(ad.meta(ws))
-        sim.schedule(Event(time=Instant(ws.off * TICK), event_type="arr", target=tgt, context={"metadata": md}))
+        sim.schedule(ad.wrap_arrival(Event(time=Instant(ws.off * TICK), event_type="arr", target=tgt,
+                                           context={"metadata": md}), ws))
     for ev in ad.extra_events(W, "last"):
         sim.schedule(ev)
     sim.control.on_time_advance(W.on_time)
@@ -1554,7 +1683,7 @@ def _lim_ops(kind, weights=(1, 2)):
     Fixed/Dynamic must ignore the weight consistently (one slot per request in both directions)."""
     ops = [("a", w) for w in weights] + [("r", w) for w in weights] + [("x", 1)]
     if kind == "Dynamic":
-        ops += [("up", 1), ("down", 1)]
+        ops += [("up", 1), ("down", 1), ("set", 1), ("set", 3)]
     return ops
 
 
@@ -1566,12 +1695,16 @@ def limiter_run(kind, limit, seq):
     never contain it; afterwards only the 'never above capacity' bounds are checked)."""
     lim = _lim_make(kind, limit)
     cost = (lambda w: w) if kind == "Weighted" else (lambda w: 1)
+    announced = []
+    if kind == "Dynamic":
+        lim.on_limit_increase(lambda: announced.append(1))
     held = []
     tainted = False
     cur = limit
     viol = []
     trace = []
     for i, (op, w) in enumerate(seq):
+        old_lm = lim.limit
         if op == "a":
             hc = lim.has_capacity(w)
             ok = lim.acquire(w)
@@ -1605,6 +1738,17 @@ def limiter_run(kind, limit, seq):
             lim.scale_down(1)
             cur = max(1, cur - 1)
             trace.append((op, w, lim.limit))
+        elif op == "set":
+            lim.set_limit(w)
+            cur = max(1, min(3, w))
+            trace.append((op, w, lim.limit))
+        if op in ("up", "down", "set"):
+            # whoever feeds the limiter is told that waiting work may start iff the limit really grew
+            if lim.limit > old_lm and not announced:
+                viol.append(("grant-late", "limit-increase-not-announced",
+                             f"step {i} {op}({w}): limit {old_lm} -> {lim.limit} but the on_limit_increase "
+                             f"listener was not called (queued work is not started)", i))
+            announced.clear()
         act, avail, lm = lim.active, lim.available, lim.limit
         used = sum(cost(x) for x in held)
         shape = "surplus-release" if tainted else "legit-sequence"
@@ -1650,9 +1794,9 @@ def run_limiters(run, tier, seed):
     t0 = time.time()
     # (weights, sequence length) per model; sequences of that length contain every shorter one as a prefix
     if tier == "quick":
-        plan = {"Fixed": ((1, 2), 7), "Dynamic": ((1, 2), 6), "Weighted": ((1, 2), 7)}
+        plan = {"Fixed": ((1, 2), 7), "Dynamic": ((1, 2), 5), "Weighted": ((1, 2), 7)}
     else:
-        plan = {"Fixed": ((1, 2, 3), 7), "Dynamic": ((1, 2, 3), 6), "Weighted": ((1, 2, 3), 7)}
+        plan = {"Fixed": ((1, 2, 3), 7), "Dynamic": ((1, 2), 6), "Weighted": ((1, 2, 3), 7)}
     d = run.driver("limiters", {"limiters": ["FixedConcurrency", "DynamicConcurrency", "WeightedConcurrency"],
                                 "limits": [1, 2, 3],
                                 "plan(weights, op_sequence_length)": plan,
@@ -1771,10 +1915,21 @@ def drivers(tier):
     plans = [(1, bf), (2, bf), (3, bf)] + ([] if q else [(4, [OFFS, ["wait"], [1, 2], [0, 1], [0]])])
     D.append(("barrier", "Barrier", bcfg, plans))
 
+    # ---- Barrier.reset() / abort() called by another process while parties are parked -----------
+    bops = {"union": [[OFFS, ["wait"], [1, 2], [1], [0]],
+                      [OFFS, ["reset", "abort"], [1], [0], [0, 1]]]}
+    plans = [(2, bops), (3, bops)] + ([] if q else [(4, bops)])
+    D.append(("barrier_reset", "Barrier", [{"parties": 2}, {"parties": 3}], plans))
+
     # ---- Condition ---------------------------------------------------------------
     cf = [OFFS, ["c", "p1", "pa"], [1], [0, 1], [0, 1]]
     plans = [(1, cf), (2, cf), (3, cf)] + ([] if q else [(4, [OFFS, ["c", "p1", "pa"], [1], [0, 1], [0]])])
     D.append(("condition", "Condition", [{}], plans))
+
+    # ---- Condition.wait_for(predicate) consumers --------------------------------------------------
+    cff = [OFFS, ["cf", "p1", "pa"], [1], [0, 1], [0]]
+    plans = [(2, cff), (3, cff)] + ([] if q else [(4, [OFFS, ["cf", "c", "p1", "pa"], [1], [0, 1], [0]])])
+    D.append(("condition_wait_for", "Condition", [{}], plans))
 
     # ---- ConnectionPool ------------------------------------------------------------
     pcfg = [{"max": m, "latency": lat, "timeout": to, "idle": idle}
@@ -1792,6 +1947,12 @@ def drivers(tier):
     wf2 = [[0, 1, 2, 3, 4, 5], ["acq"], [1], HOLDS, [0, 1]]
     plans = [(1, wf2), (2, wf2), (3, wf)] if q else [(1, wf2), (2, wf2), (3, wf2)]
     D.append(("connpool_warmup", "ConnectionPool", wcfg, plans))
+
+    # ---- ConnectionPool.close_all() while clients hold / wait ----------------------------------
+    ccfg = [{"max": m, "latency": lat, "timeout": 16, "idle": 64} for m in (1, 2) for lat in (0, 2)]
+    cops = {"union": [[OFFS, ["acq"], [1], [1, 2], [0]], [[1, 2, 3], ["close"], [1], [0], [0]]]}
+    plans = [(2, cops), (3, cops)] + ([] if q else [(4, cops)])
+    D.append(("connpool_close", "ConnectionPool", ccfg, plans))
 
     # ---- Bulkhead -------------------------------------------------------------------
     bhcfg = [{"max": m, "queue": qq, "wait": wt} for m in (1, 2) for qq in (0, 1, 2) for wt in (None, 1)]
@@ -1811,8 +1972,26 @@ def drivers(tier):
     scfg = [{"limit": lm, "service": sv} for lm in (1, 2) for sv in (1, 2)]
     sf = [OFFS, ["req"], [1, 2, 3], [0], [0, 1]]
     sf0 = [[0, 1, 2, 3], ["req"], [1, 2], [0], [0]]
-    plans = [(1, sf), (2, sf), (3, sf), (4, sf0)] if q else [(1, sf), (2, sf), (3, sf), (4, sf)]
+    sf3 = [OFFS, ["req"], [1, 2, 3], [0], [0]]
+    plans = [(1, sf), (2, sf), (3, sf3), (4, sf0)] if q else [(1, sf), (2, sf), (3, sf), (4, sf)]
     D.append(("server_fixed", "Server", scfg, plans))
+
+    # ---- Server on a DynamicConcurrency limiter: the limit changes at run time with a backlog ------
+    # service 2 ticks, limit changes at 1/2/3: raises fall strictly between completions as well as on them
+    dcfg = [{"limit": lm, "service": 2, "dynamic": True} for lm in (1, 2)]
+    dreq = [OFFS, ["req"], [1], [0], [0]]
+    dops = {"union": [[[1, 2, 3], ["up", "down"], [1], [0], [0]], [[1, 2, 3], ["set"], [1, 2, 3], [0], [0]]]}
+    dmix = {"union": [dreq] + dops["union"]}
+
+    def d_sharp(k_req, k_ops):  # a backlog of k_req requests arriving at 0/1, then k_ops limit changes
+        early = [[0, 1], ["req"], [1], [0], [0]]
+        return {"per_worker": [early] * k_req + [dops] * k_ops}
+
+    if q:
+        plans = [(2, dmix), (3, dmix), (4, d_sharp(3, 1)), (5, d_sharp(3, 2))]
+    else:
+        plans = [(2, dmix), (3, dmix), (4, dmix), (5, d_sharp(3, 2)), (6, d_sharp(4, 2))]
+    D.append(("server_dynamic", "Server", dcfg, plans))
 
     # ---- PreemptibleResource ----------------------------------------------------------------
     prcfg = [{"cap": 1}, {"cap": 2}]
@@ -1849,6 +2028,41 @@ def drivers(tier):
     return D
 
 
+# Public mutating API of the primitives named by C09 (swept on /repo HEAD with vars(cls)) and the
+# driver in which each method is an operation of the enumerated alphabet.
+API_COVERAGE = {
+    "Resource": {"acquire": "resource", "try_acquire": "resource", "set_capacity": "resource_setcap",
+                 "Grant.release": "resource"},
+    "Mutex": {"acquire": "mutex", "try_acquire": "mutex", "release": "mutex"},
+    "Semaphore": {"acquire": "semaphore", "try_acquire": "semaphore", "release": "semaphore"},
+    "RWLock": {"acquire_read": "rwlock", "acquire_write": "rwlock", "try_acquire_read": "rwlock",
+               "try_acquire_write": "rwlock", "release_read": "rwlock", "release_write": "rwlock"},
+    "Barrier": {"wait": "barrier", "reset": "barrier_reset", "abort": "barrier_reset"},
+    "Condition": {"wait": "condition", "notify": "condition", "notify_all": "condition",
+                  "wait_for": "condition_wait_for (without timeout)"},
+    "ConnectionPool": {"acquire": "connpool", "release": "connpool", "warmup": "connpool_warmup",
+                       "close_all": "connpool_close (only 'no parked waiter strands' is judged afterwards)",
+                       "handle_event(_pool_idle_timeout)": "connpool (thorough: idle_timeout=1)"},
+    "Bulkhead": {"handle_event(request/_bh_response/_bh_timeout)": "bulkhead"},
+    "ThreadPool": {"handle_event(task)": "threadpool", "submit": "threadpool (direct arrivals)"},
+    "FixedConcurrency": {"acquire": "limiters, server_fixed, threadpool", "release": "limiters, server_fixed",
+                         "has_capacity": "limiters"},
+    "DynamicConcurrency": {"acquire": "limiters, server_dynamic", "release": "limiters, server_dynamic",
+                           "has_capacity": "limiters", "set_limit": "limiters, server_dynamic",
+                           "scale_up": "limiters, server_dynamic", "scale_down": "limiters, server_dynamic",
+                           "on_limit_increase": "limiters (listener), server_dynamic (Server's own listener)"},
+    "WeightedConcurrency": {"acquire": "limiters", "release": "limiters", "has_capacity": "limiters"},
+    "PreemptibleResource": {"acquire(priority, preempt, on_preempt)": "preemptible, preemptible_drain",
+                            "PreemptibleGrant.release": "preemptible"},
+}
+API_NOT_COVERED = [
+    "Condition.wait_for(timeout=...) (the timeout is only evaluated at wake-ups; the statement is silent)",
+    "ConnectionPool on_acquire/on_release/on_timeout constructor callbacks (observers, no capacity effect)",
+    "ThreadPool.get_processing_time_percentile, *.stats and other read-only accessors",
+    "WeightedConcurrency behind a Server (the weighted model is covered as a pure object only)",
+    "Entity plumbing (set_clock, downstream_entities, forward) and non-request events sent to the primitives",
+]
+
 SPEC_DOC = ("worker = (arrival offset ticks, kind, amount, hold ticks, zero-delay hops before the arrival is "
             "delivered[, priority, preempt]); all n-tuples of workers are enumerated, worker index = creation order "
             "of the arrival events (decides same-instant ties)")
@@ -1869,6 +2083,8 @@ def main(tier, seed, only=None):
                            "(Resource: the returned future is unresolved; ThreadPool: not started within its arrival instant)",
                            "barging by a fresh arrival and ordering across different priorities are not judged",
                            "timeouts: a waiter whose configured wait time has elapsed is exempt from ordering/liveness clauses"])
+    run.notes.append({"public_mutating_api_covered(method -> driver)": API_COVERAGE,
+                      "not_covered": API_NOT_COVERED})
     if only:
         run.notes.append(f"partial run (--only {sorted(only)}): evidence covers the listed drivers only")
     for name, prim, cfgs, plans in drivers(tier):
